@@ -107,6 +107,9 @@ def _ctx(c):
     """contexts argument: {"empty": d} stands for an array with zero rows and d columns."""
     if isinstance(c, dict) and "empty" in c:
         return np.zeros((0, c["empty"]))
+    if isinstance(c, dict) and "array" in c:
+        # {"array": rows, "dtype": name}: the rows as an ndarray of that dtype (the values are representable in it)
+        return np.asarray(c["array"], dtype=c["dtype"])
     return c
 
 
